@@ -124,6 +124,14 @@ def scenario(ctx, lines, pend):
     old, _ = corrsim.apply_real(c0, prior)
     old_snapshot = old.copy()
     new = old.copy()
+    if prior and rng.random() < 0.35:
+        # trying several candidate corrections from the same corrected WCS: another corrector built
+        # from that WCS is corrected first; the WCS and the tested correction must not be affected
+        ctx.branch('interfering-wrapper')
+        other = scenes.rewrap(old)
+        fo = gen_corr(rng, unit, rng.random() < 0.5)
+        other.set_correction(fo.M.tolist(), fo.t.tolist())
+        new = scenes.rewrap(old)
     if use_ref:
         new.set_correction(f.M.tolist(), f.t.tolist(), ref_tpwcs=ref)
         plane = ref
